@@ -24,7 +24,10 @@ import (
 
 var out = bufio.NewWriter(os.Stdout)
 
-func emit(op string, impl string) { fmt.Fprintf(out, "%s\t%s\n", op, impl) }
+func emit(op string, impl string) {
+	fmt.Fprintf(out, "%s\t%s\n", op, impl)
+	out.Flush() // a panic inside a library goroutine kills the process: keep what was observed so far
+}
 
 // emitSc tags the scenario number into the cfg token ("<op> <cfg>,sc=<n> …") so that a replay can re-run exactly it.
 func emitSc(n int, op string, impl string) {
@@ -40,7 +43,12 @@ func emitSc(n int, op string, impl string) {
 // only: VERIF_C09_ONLY="<op>:<n>" restricts the run to one scenario (replay).
 func only(op string, n int) bool {
 	o := os.Getenv("VERIF_C09_ONLY")
-	return o == "" || o == fmt.Sprintf("%s:%d", op, n)
+	ok := o == "" || o == fmt.Sprintf("%s:%d", op, n)
+	if ok {
+		// marker for the check: which scenario was running if the process dies (a panic in a library goroutine)
+		fmt.Fprintf(os.Stderr, "scenario %s %d\n", op, n)
+	}
+	return ok
 }
 
 // scRand: an independent PRNG per scenario (seed, part, scenario number).
@@ -139,6 +147,9 @@ func main() {
 	}
 	if which == "all" || which == "transport" {
 		transportPart(seed)
+	}
+	if which == "all" || which == "wt" {
+		wtPart(seed)
 	}
 	if which == "all" || which == "grun" {
 		grunPart(seed)
